@@ -6,7 +6,7 @@ HERE = os.path.dirname(os.path.dirname(os.path.abspath(__file__)))
 CHECKS = {
  "C01": dict(cat="exploration", technique="property-based testing (Hypothesis): typed-value generator + round-trip oracle",
    text="Hypothesis generates metamodel-valid typed values for every root type; parse->serialise is compared with the input under the documented null rule by an oracle derived from lsp.json, not from the package. Sampling of an infinite value space with measured class coverage; no proof of absence. Adds routed cases for every union alternative at its use sites, member-order variation of every generated object, deep chains at self-recursive positions and (thorough) coverage-guided atheris campaigns over the same strategy.",
-   note="trusted: lspverif/refmodel.py reading of lsp.json; optional non-special `p: null` == absent; generator depth<=5, collections<=3", ref="3/C01"),
+   note="trusted: lspverif/refmodel.py reading of lsp.json; optional non-special `p: null` == absent; generator depth<=5, collections<=3; self-recursive positions pinned to 25/100 levels, and grafted / payload values 600 levels deep with a metamorphic oracle (known finding KF-nesting-beyond-recursion-limit)", ref="3/C01"),
  "C02": dict(cat="exploration", technique="property-based testing (Hypothesis): constructor path vs exact normal form + fix-point",
    text="Hypothesis-generated typed values are turned into nested constructor calls; the serialised object must equal the normal form NF(tv) computed from lsp.json exactly (both directions), and parse+serialise of that output must be a fix-point. Sampling with measured coverage.",
    note="trusted: refmodel/NF definition; closed-enum constructor arguments are members (the annotation demands it), open-enum ones member or raw value", ref="3/C02"),
@@ -18,7 +18,7 @@ CHECKS = {
    note="trusted: the mapping as documented in the plugin's comments and re-stated in props/c04.py; typing's Union equality", ref="3/C04"),
  "C09": dict(cat="exploration", technique="exhaustive enumeration of methods x facets and of the registry",
    text="All 95 methods x 7 facets and all registry names are enumerated and compared with relations derived from lsp.json; complete for the finite domain.",
-   note="trusted: message-class naming rule and UPPER_SNAKE derivation re-implemented in refmodel.py; the forward-reference scan also runs in a fresh process of every installed interpreter 3.8-3.13 (known finding KF-py38-alias-chain-forward-refs)", ref="3/C09"),
+   note="trusted: message-class naming rule and UPPER_SNAKE derivation re-implemented in refmodel.py; the forward-reference scan also runs in a fresh process of every installed interpreter 3.8-3.13 (known finding KF-py38-alias-chain-forward-refs), together with a comparison of the registry keys before and after the first converter", ref="3/C09"),
  "C15": dict(cat="exploration", technique="property-based testing (Hypothesis): metamorphic insertion of undeclared keys",
    text="Metamorphic: generated valid values get fresh undeclared keys with arbitrary JSON payloads at generated protocol-object nodes; result object and re-serialisation must be unchanged. Names include node-relative respellings (snake/kebab/Pascal...) of the node's own properties and names meaningful to Python.",
    note="fresh = declared nowhere in the metamodel; payload/map positions excluded", ref="3/C15"),
@@ -63,7 +63,7 @@ CHECKS = {
    note="schema-valid = valid against the MetaModel definition; annotation-only edits are not required to be unequal", ref="3/C18"),
 
  "C16": dict(cat="exploration", technique="stateful property-based testing (Hypothesis RuleBasedStateMachine) over output-directory histories x hash seeds",
-   text="Per plugin a state machine runs the real generator CLI repeatedly into one directory with generated model lists, hash seeds and planted stale files; after every run the digest map of the plugin-owned files must equal the fresh-directory reference computed in another process under another hash seed. Runs vary working directory, path spelling, search path, clock/user/machine; configuration files of formatters and build tools are planted in the output tree; an in-process history generates again from the same model object. Output directories are also called like the plugin (named relative to their parent), hold the package directory or another plugin's output before the first run; variants of the rust test harness (markers missing/swapped/with trailing blanks, CRLF, blank lines at the end) must be fixed points of the run.",
+   text="Per plugin a state machine runs the real generator CLI repeatedly into one directory with generated model lists, hash seeds and planted stale files; after every run the digest map of the plugin-owned files must equal the fresh-directory reference computed in another process under another hash seed. Runs vary working directory, path spelling, search path, clock/user/machine; configuration files of formatters and build tools are planted in the output tree; an in-process history generates again from the same model object. Output directories are also called like the plugin (named relative to their parent), hold the package directory or another plugin's output before the first run; variants of the rust test harness (markers missing/swapped/with trailing blanks, CRLF, blank lines at the end) must be fixed points of the run; one model object is handed to several plugins in turn inside one process.",
    note="owned-file patterns as listed in the evidence; slow plugins use reduced closed sub-models in the quick tier", ref="3/C16"),
  "C19": dict(cat="exploration", technique="harness-owned thread scheduler (sys.settrace yield points, Hypothesis-generated schedules, forked pristine children) + stateful creation histories",
    text="First-use concurrency is explored under a deterministic scheduler that owns the interleaving at line granularity inside the forward-reference resolution; creation histories over fresh/user-supplied converters are checked by a rule-based state machine against a battery; thorough adds real-thread trials. Schedules continue into each thread's first use (in-thread observations compared); histories contain creations cut short by injected asynchronous exceptions / RecursionError followed by a wide battery; every non-customised configuration is compared with get_converter() on routed values of every union alternative (JSON and object classes). User-supplied kinds include cattrs preconf (json) converters and a converter with cattrs' union passthrough.",
